@@ -131,8 +131,9 @@ struct ContentOpts {
     bool paramOrder = true;
     bool channelNames = true;
     bool pointNames = true;
+    bool trimA = true, trimB = true;   // right-trim the strings of the first / second snapshot (a loaded object must ALREADY hold trimmed strings: pass false for it)
 };
-inline Snap normalised(const Snap &in, const ContentOpts &o) {
+inline Snap normalised(const Snap &in, const ContentOpts &o, bool trim = true) {
     Snap s = in;
     s.parametersStart = s.pchecksum = s.nbParamBlock = s.processorType = 0;
     s.h.zeros = s.h.parametersAddress = s.h.checksum = s.h.dataStart = 0;
@@ -142,12 +143,12 @@ inline Snap normalised(const Snap &in, const ContentOpts &o) {
         s.h.eventsTime.clear(); s.h.eventsDisplay.clear(); s.h.eventsLabel.clear(); s.h.scaleFactor = 0;
     }
     if (s.h.nbAnalogs == 0) { s.h.nbAnalogByFrame = 0; s.h.nbAnalogsMeasurement = 0; }   // sub-frame count is unobservable without channels
-    for (auto &l : s.h.eventsLabel) l = rtrim(l);
+    // event labels are fixed 4-character fields: never trimmed by the library, compared as they are
     for (auto &g : s.groups) {
         g.name = upper(g.name);
         for (auto &p : g.params) {
             p.name = upper(p.name);
-            for (auto &t : p.strs) t = rtrim(t);
+            if (trim) for (auto &t : p.strs) t = rtrim(t);
             if (p.name == "DATA_START" && p.type != -1) { p.ints.assign(p.ints.size(), 0); p.floats.assign(p.floats.size(), 0); }
         }
     }
@@ -169,7 +170,7 @@ inline Snap normalised(const Snap &in, const ContentOpts &o) {
     return s;
 }
 inline std::string diffContent(const Snap &a, const Snap &b, const ContentOpts &o = ContentOpts()) {
-    return firstDiff(snapText(normalised(a, o), false), snapText(normalised(b, o), false));
+    return firstDiff(snapText(normalised(a, o, o.trimA), false), snapText(normalised(b, o, o.trimB), false));
 }
 inline std::string diffIdentical(const Snap &a, const Snap &b) { return firstDiff(snapText(a, true), snapText(b, true)); }
 
